@@ -74,7 +74,7 @@ LEARNERS = {
 
 
 def gen_cases(tier, seed):
-    reps = {"quick": 16, "thorough": 200}[tier]
+    reps = {"quick": 16, "thorough": 1000}[tier]
     cases = []
     for name in LEARNERS:
         for i in range(reps):
